@@ -80,7 +80,7 @@ pub fn c10_samples() {
     let sess = vsym::choice("session", 2);
     let (mut c, mut rx) = new_client();
     if sess == 1 { process_request("use-db d tok", &n.dbs, &mut c); }
-    let k = vsym::choice("sample", 14);
+    let k = vsym::choice("sample", 16);
     vsym::tag_i("sample", k as i64);
     let line: String = match k {
         0 => ["set doc ", &"a".repeat(5000)].concat(),
@@ -96,6 +96,8 @@ pub fn c10_samples() {
         10 => ["increment k ", &"9".repeat(400)].concat(),
         11 => ["set-safe k ", &"9".repeat(400), " v"].concat(),
         12 => ["use-db ", &"\u{65e5}".repeat(400), " tok"].concat(),
+        14 => [&"rp 1 ".repeat(3000), "get k"].concat(),                       // a 15 KB line of nested replication wrappers
+        15 => [&"rp 1 ".repeat(40), "get k"].concat(),                         // nesting is refused outright (no node produces it)
         _ => ["auth ", &"u".repeat(1023), "\u{e9} pwd"].concat(),
     };
     let r = process_request(&line, &n.dbs, &mut c);
